@@ -455,7 +455,8 @@ def sameClass (a b : Child) : Bool := ciEq a.name b.name && decide (a.kind = b.k
     conf_set_string_list_value); it keeps its own spelling of the name -/
 def setValues (n : Child) : List Child → List Child
   | [] => []
-  | c :: rest => if sameClass n c then { c with values := n.values } :: rest else c :: setValues n rest
+  | c :: rest =>
+    if sameClass n c then { c with values := n.values, cached := n.cached } :: rest else c :: setValues n rest
 
 /-- set_insert: comparator order -/
 def insertChild (n : Child) : List Child → List Child
@@ -465,8 +466,14 @@ def insertChild (n : Child) : List Child → List Child
 /-- conf_parse_get_child on the scratch tree (`existing = set_find(…)`, else `set_insert`) + the
     assignment of the value: an entry whose (name, type) is already there overwrites its value
     and keeps the first spelling. -/
+def scratchCache (k : Kind) (vs : List Bytes) : Option Bytes :=
+  match k, vs with
+  | .str, [v] => some v
+  | _, _ => none
+
 def scratchInsert (cs : List Child) (e : RawEntry) : List Child :=
-  let n : Child := { name := e.key, kind := e.kind, values := e.values }
+  -- conf_parse_entry: `node->parsed.p_string = string` for every string the file creates
+  let n : Child := { name := e.key, kind := e.kind, values := e.values, cached := scratchCache e.kind e.values }
   if cs.any (sameClass n) then setValues n cs else insertChild n cs
 
 def scratchOf (es : List RawEntry) : List Child := es.foldl scratchInsert []
@@ -510,8 +517,12 @@ def revertChild (co : Bytes → Bool) (run : Run) (pre : List Child) (t : Child)
         if t.hook then (fire co run1 (pre ++ t' :: rest), some t', false, true)
         else (run1, some t', false, false)
     else
-      -- value = NULL, default NULL: `if (orig_value && hook)` looks at the already cleared value
-      (run, none, true, false)
+      -- value = NULL, default NULL: conf_parse_string_value compares the cached parse with
+      -- all-zero, clears it and runs the hook when it was set; the node (value NULL) is still
+      -- in the tree while the hook runs and is removed afterwards
+      let t' := { t with values := [], cached := none }
+      if t.cached.isSome && t.hook then (fire co run (pre ++ t' :: rest), none, true, true)
+      else (run, none, true, false)
   | .list =>
     if t.values = [] then (run, if t.reg then some t else none, !t.reg, false)
     else
